@@ -1,5 +1,5 @@
 (* C16 property theorems.  Only statements closed by [exact]; each followed by Print Assumptions. *)
-From Miller Require Import Base.Record C16.Model C16.CivilProofs C16.TextProofs C16.Proofs C16.GmtProofs C16.DhmsProofs C16.ZoneProofs C16.Verb C16.VerbProofs gen.Gen_Zones.
+From Miller Require Import Base.Record C16.Model C16.CivilProofs C16.TextProofs C16.Proofs C16.GmtProofs C16.DhmsProofs C16.ZoneProofs C16.Verb C16.VerbProofs C16.Datediff C16.DatediffProofs gen.Gen_Zones.
 Open Scope Z_scope.
 
 (* calendar inverses, ALL integers / all valid dates of all years (proleptic Gregorian) *)
@@ -127,8 +127,32 @@ Theorem C16_zone_roundtrip_near_transitions_instances : forallb zone_roundtrip_o
 Proof. exact gen_zones_roundtrip_near_transitions. Qed.
 Print Assumptions C16_zone_roundtrip_near_transitions_instances.
 
+(* datediff(a, b, "d") is the difference of the civil day numbers of the two instants: all integers, any distance,
+   either order (the result is negative when a is after b) *)
+Theorem C16_datediff_days : forall a b, datediff a b UD = b / 86400 - a / 86400.
+Proof. exact datediff_d. Qed.
+Print Assumptions C16_datediff_days.
+
+Theorem C16_datediff_days_of_dates :
+  forall y1 m1 d1 y2 m2 d2 s1 s2,
+  valid_date y1 m1 d1 = true -> valid_date y2 m2 d2 = true -> 0 <= s1 < 86400 -> 0 <= s2 < 86400 ->
+  datediff (days_of_civil y1 m1 d1 * 86400 + s1) (days_of_civil y2 m2 d2 * 86400 + s2) UD
+  = days_of_civil y2 m2 d2 - days_of_civil y1 m1 d1.
+Proof. exact datediff_d_dates. Qed.
+Print Assumptions C16_datediff_days_of_dates.
+
+Theorem C16_datediff_antisymmetric : forall a b u, a < b -> datediff b a u = - datediff a b u.
+Proof. exact datediff_antisym. Qed.
+Print Assumptions C16_datediff_antisymmetric.
+
+Theorem C16_datediff_months_decomposition : forall a b, datediff a b UM = 12 * datediff a b UY + datediff a b UYM.
+Proof. exact datediff_ym_decomposition. Qed.
+Print Assumptions C16_datediff_months_decomposition.
+
 Example C16_nonvacuous :
   valid_date 2024 2 29 = true /\ valid_date 1900 2 29 = false /\ civil_of_days 0 = (1970, 1, 1)
   /\ civil_of_days (-719162) = (1, 1, 1) /\ days_of_civil 9999 12 31 = 2932896
-  /\ S_ (sec2gmt_int 951782400 0) = "2000-02-29T00:00:00Z"%string.
+  /\ S_ (sec2gmt_int 951782400 0) = "2000-02-29T00:00:00Z"%string
+  /\ datediff (-62135596800) 253402300799 UD = 3652058 /\ datediff 1577836800 1684108800 UYD = 134
+  /\ datediff 1577836800 1684108800 UMD = 14 /\ datediff 1684108800 1577836800 UY = -3.
 Proof. vm_compute. repeat split; reflexivity. Qed.
